@@ -5,7 +5,13 @@ type nat =
 | O
 | S of nat
 
+val fst : ('a1 * 'a2) -> 'a1
+
+val snd : ('a1 * 'a2) -> 'a2
+
 val length : 'a1 list -> nat
+
+val app : 'a1 list -> 'a1 list -> 'a1 list
 
 val pred : nat -> nat
 
@@ -20,11 +26,15 @@ module Nat :
   val leb : nat -> nat -> bool
 
   val ltb : nat -> nat -> bool
+
+  val iter : nat -> ('a1 -> 'a1) -> 'a1 -> 'a1
  end
 
 val nth : nat -> 'a1 list -> 'a1 -> 'a1
 
 val map : ('a1 -> 'a2) -> 'a1 list -> 'a2 list
+
+val flat_map : ('a1 -> 'a2 list) -> 'a1 list -> 'a2 list
 
 val fold_left : ('a1 -> 'a2 -> 'a1) -> 'a2 list -> 'a1 -> 'a1
 
@@ -43,8 +53,11 @@ type want_t =
 
 val want_eqb : want_t -> want_t -> bool
 
-type edge_info = { ei_ins : nat list; ei_cons : nat list; ei_pool : nat;
-                   ei_phony : bool }
+type gated = nat * nat option
+
+type edge_info = { ei_ins : gated list; ei_cons : gated list; ei_pool : 
+                   nat; ei_phony : bool; ei_ddprod : nat option;
+                   ei_ddouts : nat list }
 
 type graph = { g_edges : edge_info list; g_depths : nat list }
 
@@ -54,9 +67,9 @@ val einfo : graph -> nat -> edge_info
 
 val n_edges : graph -> nat
 
-val ins : graph -> nat -> nat list
+val ddprod : graph -> nat -> nat option
 
-val cons_of : graph -> nat -> nat list
+val ddouts : graph -> nat -> nat list
 
 val pool : graph -> nat -> nat
 
@@ -81,8 +94,8 @@ type 'a res =
 
 type plan = { p_want : (nat -> want_t option); p_ready : nat list;
               p_delayed : nat list; p_use : (nat -> nat); p_wanted : 
-              nat; p_commands : nat; p_oready : (nat -> bool); p_tokens : 
-              nat }
+              nat; p_commands : nat; p_oready : (nat -> bool);
+              p_tokens : nat; p_loaded : (nat -> bool) }
 
 val set_want : plan -> (nat -> want_t option) -> plan
 
@@ -99,6 +112,14 @@ val set_commands : plan -> nat -> plan
 val set_oready : plan -> (nat -> bool) -> plan
 
 val set_tokens : plan -> nat -> plan
+
+val set_loaded : plan -> (nat -> bool) -> plan
+
+val active : plan -> gated -> bool
+
+val ins_at : graph -> plan -> nat -> nat list
+
+val cons_at : graph -> plan -> nat -> nat list
 
 val all_inputs_ready : graph -> plan -> nat -> bool
 
@@ -118,9 +139,55 @@ val fold_res : (nat -> plan -> plan res) -> nat list -> plan -> plan res
 
 val release_token : config -> bool -> plan -> plan option
 
+val count_if : (nat -> bool) -> nat list -> nat
+
+val is_wanted : (nat -> want_t option) -> nat -> bool
+
+val npwf : graph -> (nat -> want_t option) -> nat
+
+val in_want : plan -> nat -> bool
+
+type load = { ld_dirty : nat list; ld_ready : nat list;
+              ld_added : (nat * bool) list; ld_walk : nat list }
+
+val edge_wanted : graph -> nat -> plan -> plan
+
+val add_new : nat list -> nat list -> nat list
+
+val dep_step : graph -> plan -> nat list -> nat list
+
+val dependents : graph -> plan -> nat -> nat list
+
+val op_dirty : graph -> nat list -> nat -> plan -> plan option
+
+val op_ready : graph -> nat -> plan -> plan option
+
+val op_rescan : graph -> nat -> plan -> plan
+
+val op_add : graph -> (nat * bool) -> plan -> plan option
+
+val fold_opt : ('a1 -> plan -> plan option) -> 'a1 list -> plan -> plan option
+
+val chk_closed : graph -> plan -> bool
+
+val chk_sched : graph -> plan -> bool
+
+val chk_oclosed : graph -> plan -> bool
+
+val chk_walk : graph -> plan -> plan -> nat list -> bool
+
+val is_nothing : want_t option -> bool
+
+val chk_evol : graph -> load -> plan -> plan -> bool
+
+val bound : graph -> plan -> nat -> nat list
+
+val apply_load :
+  graph -> (nat -> load option) -> nat -> plan -> (plan * nat list) res
+
 val edge_finished :
-  nat -> graph -> config -> nat list -> nat -> bool -> bool -> plan -> plan
-  res
+  nat -> graph -> config -> nat list -> (nat -> load option) -> nat -> bool
+  -> bool -> plan -> plan res
 
 val plan_fuel : graph -> nat
 
@@ -167,11 +234,15 @@ val can_start : config -> state -> bool
 
 val in_build : state -> bool
 
-val step_res : graph -> config -> state -> event -> state res
+val step_res :
+  graph -> config -> (nat -> load option) -> state -> event -> state res
 
-val step : graph -> config -> state -> event -> state option
+val step :
+  graph -> config -> (nat -> load option) -> state -> event -> state option
 
-val accepts : graph -> config -> state -> event list -> state option
+val accepts :
+  graph -> config -> (nat -> load option) -> state -> event list -> state
+  option
 
 type snapshot = { sn_want : (nat -> want_t option);
                   sn_oready : (nat -> bool); sn_wanted : nat;
@@ -182,11 +253,12 @@ val snap_plan : snapshot -> plan
 val init_state : graph -> config -> nat list -> snapshot -> state
 
 val run :
-  graph -> config -> nat list -> snapshot -> event list -> state option
+  graph -> config -> (nat -> load option) -> nat list -> snapshot -> event
+  list -> state option
 
-val count_if : (nat -> bool) -> nat list -> nat
+val gated_eqb : gated -> gated -> bool
 
-val is_wanted : (nat -> want_t option) -> nat -> bool
+val memg : gated -> gated list -> bool
 
 val wf_graph_b : graph -> (nat -> nat) -> bool
 
@@ -195,8 +267,8 @@ val wf_snap_b : graph -> snapshot -> bool
 val wf_cfg_b : config -> bool
 
 val auto_phony :
-  nat -> graph -> config -> nat list -> nat list -> state -> event
-  list * state
+  nat -> graph -> config -> (nat -> load option) -> nat list -> nat list ->
+  state -> event list * state
 
 val want_list : graph -> plan -> (nat * want_t option) list
 
